@@ -101,7 +101,7 @@ func c11NewSingle(rep *kit.Report, unit string, seed uint64, cfg c11Cfg) (*c11En
 		c.CursorsStream.AutoPauseTime = cfg.AutoPause
 		c.Streams.SegmentMaxBytes = cfg.SegBytes
 		if cfg.CleanMode == "ticker" {
-			c.Streams.CleanerInterval = 250 * time.Millisecond
+			c.Streams.CleanerInterval = 700 * time.Millisecond
 		} else {
 			c.Streams.CleanerInterval = time.Hour
 		}
